@@ -80,6 +80,9 @@ def _cases(tier):
     out.append(("single_late_time_signature", mk(tss=[(8, 3, 4)], kss=[(0, 0, "major")], measures=[], note=(0, 32))))
     out.append(("late_compound_time_signatures", mk(tss=[(8, 6, 8), (20, 9, 8)], kss=[(0, 0, "major")], measures=[], note=(0, 38))))
     out.append(("timeline_ends_after_the_last_measure", mk(tss=[(0, 4, 4)], measures=[(0, 16), (16, 32), (32, 48)], note=(44, 52))))
+    out.append(("clef_change_at_the_last_time_point", mk(tss=[(0, 4, 4)], clefs=[(0, 1, "G", 2, 0), (32, 1, "F", 4, 0)], measures=[(0, 16), (16, 32)], note=(0, 32))))
+    out.append(("only_clef_of_staff_2_at_the_last_time_point", mk(tss=[(0, 4, 4)], clefs=[(0, 1, "G", 2, 0), (32, 2, "F", 4, 0)], measures=[(0, 16), (16, 32)], note=(0, 32), staves=2)))
+    out.append(("key_signature_with_mode_none", mk(tss=[(0, 4, 4)], kss=[(0, -7, "none"), (16, 3, "none")], measures=[(0, 16), (16, 32)], note=(0, 32))))
     out.append(("three_changes", mk(tss=[(0, 4, 4), (16, 6, 8), (28, 2, 2)], kss=[(0, 0, "major"), (16, 7, "major"), (28, -7, "minor")],
                                   clefs=[(0, 1, "G", 2, 0), (16, 1, "C", 3, 0), (20, 1, "G", 2, -1)], measures=[(0, 16), (16, 28), (28, 44)], note=(0, 44))))
     out.append(("pickup_4_4", mk(tss=[(0, 4, 4)], kss=[(0, 1, "major")], clefs=[(0, 1, "G", 2, 0)], measures=[(0, 4), (4, 20), (20, 36)], note=(0, 36))))
